@@ -26,8 +26,8 @@ S == INSTANCE SrcCore
 D == INSTANCE DstCore
 Now == 100000
 None == [t |-> "none"]
-VARIABLES cfg, hs, hd, sd, ds, budget, cbud, cut, obs, turn, calm, hist
-vars == <<cfg, hs, hd, sd, ds, budget, cbud, cut, obs, turn, calm, hist>>
+VARIABLES cfg, hs, hd, sd, ds, budget, cbud, cut, obs, turn, settled, hist
+vars == <<cfg, hs, hd, sd, ds, budget, cbud, cut, obs, turn, settled, hist>>
 
 CMax(a, b) == IF a > b THEN a ELSE b
 CMin(a, b) == IF a < b THEN a ELSE b
@@ -95,9 +95,13 @@ AgedS(dt) == [hs EXCEPT !.ackT = AgeT(@, dt, cfg.ackInt), !.chkT = AgeT(@, dt, c
 AgedD(dt) == [hd EXCEPT !.p.nakT = AgeT(@, dt, cfg.nakInt), !.p.ackT = AgeT(@, dt, cfg.ackInt),
                         !.p.chkT = AgeT(@, dt, cfg.chkInt)]
 CanTick == \E dt \in Ticks : <<AgedS(dt), AgedD(dt)>> # <<hs, hd>>   \* some armed timer has not expired yet
-\* canonical pacing: when both links are empty and both entities were polled without any effect, time passes
+\* A side is settled when its last call had no effect (nothing emitted, no state change) or its transaction is closed.
+\* The application polls its handlers at least once per timer period: time passes only while both sides are settled,
+\* and after time has passed both have to be polled again.
+BothSettled == ("S" \in settled \/ hs.state = "IDLE") /\ ("D" \in settled \/ hd.state = "IDLE")
+\* canonical pacing: when moreover both links are empty, time passes at once
 \* (if no timer is running either, nothing will ever happen again: the run is stuck)
-Calm == Pacing = "canon" /\ Quiet /\ calm >= 2
+Calm == Pacing = "canon" /\ Quiet /\ BothSettled
 Stuck == Calm /\ ~CanTick /\ ~Done
 Open == ~Done /\ ~Stuck /\ (~Record \/ Len(hist) < MaxHist)
 Polling == ~Calm     \* handler calls are made only while not calm
@@ -112,7 +116,7 @@ Init ==
   /\ hs = S!SrcPut(S!InitS(cfg), cfg, ReqOf(cfg), Now).h
   /\ hd = D!InitD(Fs0(cfg))
   /\ sd = <<>> /\ ds = <<>> /\ budget = K /\ cbud = Cancels /\ cut = {} /\ obs = Obs0
-  /\ turn = "S" /\ calm = 0 /\ hist = <<>>
+  /\ turn = "S" /\ settled = {} /\ hist = <<>>
 
 \* ---- handler calls (one state_machine call + draining get_next_packet into the outbound link) ----
 SrcCall(deliver) ==
@@ -122,7 +126,7 @@ SrcCall(deliver) ==
          dr == S!SrcDrain(c.h, -1) IN
      /\ hs' = dr.h /\ sd' = OnSd(dr.out) /\ ds' = IF deliver THEN Tail(ds) ELSE ds
      /\ obs' = ObsCall("S", c, dr.out, hd.fs)
-     /\ calm' = IF ~deliver /\ dr.out = <<>> /\ dr.h = hs THEN CMin(calm + 1, 2) ELSE 0
+     /\ settled' = IF ~deliver /\ dr.out = <<>> /\ dr.h = hs THEN settled \cup {"S"} ELSE settled \ {"S"}
   /\ turn' = IF Canon THEN "D" ELSE turn
   /\ Hist("S", IF deliver THEN 1 ELSE 0)
   /\ UNCHANGED <<cfg, hd, budget, cbud, cut>>
@@ -134,7 +138,7 @@ DstCall(deliver, wrej) ==
          dr == D!DstDrain(c.h, -1) IN
      /\ hd' = dr.h /\ ds' = OnDs(dr.out) /\ sd' = IF deliver THEN Tail(sd) ELSE sd
      /\ obs' = [ObsCall("D", c, dr.out, dr.h.fs) EXCEPT !.kf = @ \cup KnownSig("D", hd, pkt, dr.out)]
-     /\ calm' = IF ~deliver /\ dr.out = <<>> /\ dr.h = hd THEN CMin(calm + 1, 2) ELSE 0
+     /\ settled' = IF ~deliver /\ dr.out = <<>> /\ dr.h = hd THEN settled \cup {"D"} ELSE settled \ {"D"}
   /\ budget' = IF wrej THEN budget - 1 ELSE budget
   /\ turn' = IF Canon THEN "S" ELSE turn
   /\ Hist("D", IF wrej THEN 2 ELSE IF deliver THEN 1 ELSE 0)
@@ -143,17 +147,17 @@ DstCall(deliver, wrej) ==
 SrcEntity ==
   /\ Open /\ Polling /\ SrcClosed /\ (Canon => turn = "S")
   /\ IF ds # <<>> THEN /\ sd' = IF Head(ds).t = "FIN" THEN OnSd(<<EntAckFin(Head(ds))>>) ELSE sd
-                       /\ ds' = Tail(ds) /\ calm' = 0 /\ Hist("Se", 1)
-     ELSE Canon /\ UNCHANGED <<sd, ds, hist>> /\ calm' = CMin(calm + 1, 2)
+                       /\ ds' = Tail(ds) /\ Hist("Se", 1)
+     ELSE Canon /\ UNCHANGED <<sd, ds, hist>>
   /\ turn' = IF Canon THEN "D" ELSE turn
-  /\ UNCHANGED <<cfg, hs, hd, budget, cbud, cut, obs>>
+  /\ UNCHANGED <<cfg, hs, hd, budget, cbud, cut, obs, settled>>
 DstEntity ==
   /\ Open /\ Polling /\ DstClosed /\ (Canon => turn = "D")
   /\ IF sd # <<>> THEN /\ ds' = IF Head(sd).t = "EOF" /\ Head(sd).h.mode = "ACK" THEN OnDs(<<EntAckEof(Head(sd))>>) ELSE ds
-                       /\ sd' = Tail(sd) /\ calm' = 0 /\ Hist("De", 1)
-     ELSE Canon /\ UNCHANGED <<sd, ds, hist>> /\ calm' = CMin(calm + 1, 2)
+                       /\ sd' = Tail(sd) /\ Hist("De", 1)
+     ELSE Canon /\ UNCHANGED <<sd, ds, hist>>
   /\ turn' = IF Canon THEN "S" ELSE turn
-  /\ UNCHANGED <<cfg, hs, hd, budget, cbud, cut, obs>>
+  /\ UNCHANGED <<cfg, hs, hd, budget, cbud, cut, obs, settled>>
 
 \* ---- the link: faults hit the PDU that would be delivered next ----
 LinkTurn(l) == Canon => turn = (IF l = "sd" THEN "D" ELSE "S")
@@ -171,24 +175,24 @@ Fault(kind, l) ==
         IN IF l = "sd" THEN sd' = q2 /\ UNCHANGED ds ELSE ds' = q2 /\ UNCHANGED sd
   /\ budget' = budget - 1
   /\ Hist(kind, IF l = "sd" THEN 0 ELSE 1)
-  /\ UNCHANGED <<cfg, hs, hd, cbud, cut, obs, turn, calm>>
+  /\ UNCHANGED <<cfg, hs, hd, cbud, cut, obs, turn, settled>>
 \* the link falls silent for good: everything in flight and everything sent later is lost
 Cut(l) ==
   /\ Open /\ l \in Cuts /\ l \notin cut /\ LinkTurn(l)
   /\ cut' = cut \cup {l}
   /\ IF l = "sd" THEN sd' = <<>> /\ UNCHANGED ds ELSE ds' = <<>> /\ UNCHANGED sd
   /\ Hist("cut", IF l = "sd" THEN 0 ELSE 1)
-  /\ UNCHANGED <<cfg, hs, hd, budget, cbud, obs, turn, calm>>
+  /\ UNCHANGED <<cfg, hs, hd, budget, cbud, obs, turn, settled>>
 
 \* Time passing while PDUs are in flight delays each of them: that is a link fault ("delay") and costs budget.
 Tick(dt) ==
-  /\ Open /\ (Canon => Calm)
+  /\ Open /\ BothSettled /\ (Canon => Calm)
   /\ LET n == Len(sd) + Len(ds) IN
      IF n = 0 THEN UNCHANGED budget
      ELSE "delay" \in Faults /\ budget >= n /\ budget' = budget - n
   /\ hs' = AgedS(dt) /\ hd' = AgedD(dt)
   /\ <<hs', hd'>> # <<hs, hd>>        \* only while some armed timer has not expired yet
-  /\ calm' = 0
+  /\ settled' = {}
   /\ Hist("tick", dt)
   /\ UNCHANGED <<cfg, sd, ds, cbud, cut, obs, turn>>
 
@@ -198,7 +202,7 @@ CancelS ==
   /\ LET c == S!SrcCancel(hs, cfg, TRUE, Now)
          dr == S!SrcDrain(c.h, -1) IN
      /\ hs' = dr.h /\ sd' = OnSd(dr.out) /\ obs' = ObsCall("S", c, dr.out, hd.fs)
-  /\ cbud' = cbud \ {"S"} /\ calm' = 0
+  /\ cbud' = cbud \ {"S"} /\ settled' = settled \ {"S"}
   /\ Hist("cancelS", 1)
   /\ UNCHANGED <<cfg, hd, ds, budget, cut, turn>>
 CancelD ==
@@ -206,7 +210,7 @@ CancelD ==
   /\ LET c == D!DstCancel(hd, cfg, TRUE, Now)
          dr == D!DstDrain(c.h, -1) IN
      /\ hd' = dr.h /\ ds' = OnDs(dr.out) /\ obs' = ObsCall("D", c, dr.out, dr.h.fs)
-  /\ cbud' = cbud \ {"D"} /\ calm' = 0
+  /\ cbud' = cbud \ {"D"} /\ settled' = settled \ {"D"}
   /\ Hist("cancelD", 1)
   /\ UNCHANGED <<cfg, hs, sd, budget, cut, turn>>
 
